@@ -45,6 +45,7 @@ func (s coreStep) String() string {
 type corePlan struct {
 	Peers, Handlers int
 	Scripts         [][][]action
+	Cfgs            []int // per handler: the content of the handler object
 	Steps           []coreStep
 }
 
@@ -53,7 +54,7 @@ func (pl corePlan) render() map[string]any {
 	for _, s := range pl.Steps {
 		steps = append(steps, s.String())
 	}
-	return map[string]any{"peers": pl.Peers, "handlers": pl.Handlers, "scripts": showScripts(pl.Scripts), "steps": steps}
+	return map[string]any{"peers": pl.Peers, "handlers": pl.Handlers, "scripts": showScripts(pl.Scripts), "configs": pl.Cfgs, "steps": steps}
 }
 
 const (
@@ -124,6 +125,7 @@ func genCorePlan(t *rapid.T) corePlan {
 		}
 		pl.Steps = append(pl.Steps, st)
 	}
+	pl.Cfgs = genCfgs(t, pl.Handlers)
 	return pl
 }
 
@@ -254,7 +256,7 @@ func (b *bench) announce(t world.TB, idx int, st coreStep, p *world.Peer) {
 func TestCoreFirst(t *testing.T) {
 	rapid.Check(t, world.Prop(func(t *rapid.T) {
 		pl := genCorePlan(t)
-		b := newBench(pl.Handlers, pl.Scripts)
+		b := newBench(pl.Handlers, pl.Scripts, pl.Cfgs)
 		defer b.w.Teardown()
 		b.w.Sync()
 		b.rebase()
@@ -317,7 +319,7 @@ func TestCoreFirst(t *testing.T) {
 		}
 		labels := []string{fmt.Sprintf("core/peers/%d", pl.Peers), fmt.Sprintf("core/announces/%d", announces)}
 		for name, on := range map[string]bool{"core/remove": removes > 0, "core/writer-reentry": reentries > 0, "core/reentrant": reacted > 0,
-			"core/delivered-to-handler": delivered, "core/between": betweenTwoPublications(ops, pubs)} {
+			"core/delivered-to-handler": delivered, "core/between": betweenTwoPublications(ops, pubs), "core/handlers-alike": alike(pl.Cfgs)} {
 			if on {
 				labels = append(labels, name)
 			}
